@@ -103,6 +103,12 @@ func runC18(c *core.Ctx) {
 		for _, f := range p.Funcs {
 			core.Instrs(f, func(ins ssa.Instruction) {
 				if st, isS := ins.(*ssa.Store); isS && core.FieldKey(st.Addr) == "SimpleHTTPDef.client" {
+					// initialising the object a constructor is building is not a later rebinding of the client
+					if fa, isFA := st.Addr.(*ssa.FieldAddr); isFA {
+						if _, fresh := core.Resolve(core.FieldOwner(fa)).(*ssa.Alloc); fresh && f.Signature.Recv() == nil {
+							return
+						}
+					}
 					writers[core.FuncName(f)] = true
 				}
 			})
